@@ -55,6 +55,11 @@ func carriesCode(v ssa.Value, code string, depth int) bool {
 		if name == "fmt.Errorf" {
 			return errorfWraps(x, func(a ssa.Value) bool { return carriesCode(a, code, depth+1) })
 		}
+		return helperErrorsCarry(x, x.Call.Signature().Results().Len()-1, code, depth)
+	case *ssa.Extract:
+		if call, ok := x.Tuple.(*ssa.Call); ok {
+			return helperErrorsCarry(call, x.Index, code, depth)
+		}
 	case *ssa.Phi:
 		for _, e := range x.Edges {
 			if !carriesCode(e, code, depth+1) {
@@ -68,6 +73,30 @@ func carriesCode(v ssa.Value, code string, depth int) bool {
 		return carriesCode(x.X, code, depth+1)
 	}
 	return false
+}
+
+// helperErrorsCarry: call is a call of a private helper whose result idx is an
+// error; every non-nil error it can return carries the code.
+func helperErrorsCarry(call *ssa.Call, idx int, code string, depth int) bool {
+	h := call.Call.StaticCallee()
+	if h == nil || h.Blocks == nil || len(privateCallSites(h)) == 0 || idx < 0 {
+		return false
+	}
+	n := 0
+	for _, r := range returnsOf(h) {
+		if idx >= len(r.Results) {
+			return false
+		}
+		ev := facts.RetVal(r, idx)
+		if facts.IsNilConst(ev) {
+			continue
+		}
+		n++
+		if !carriesCode(ev, code, depth+1) {
+			return false
+		}
+	}
+	return n > 0
 }
 
 // errorfArgs returns the format string and variadic arguments of a fmt.Errorf call.
